@@ -553,7 +553,118 @@ pub fn meta(args: &Args) -> Report {
             }
         }
     });
+    // pattern ids in matches are input positions, also when a prefilter confirms matches itself:
+    // prefilter-activating lists, with a pattern that an earlier pattern shadows (leftmost-first
+    // never reports it) inserted before the others; haystacks long enough for the vector searcher
+    {
+        let mut idlists: Vec<Vec<Vec<u8>>> = vec![];
+        for (i, (l, _)) in crate::pc::pre_lists(false, seed).into_iter().enumerate() {
+            if i % 6 != 4 && i % 6 != 3 {
+                continue;
+            }
+            if l.is_empty() || l[0].is_empty() {
+                continue;
+            }
+            let mut l2 = l.clone();
+            let mut shadowed = l[0].clone();
+            shadowed.extend_from_slice(b"zq");
+            l2.insert(1, shadowed);
+            idlists.push(l);
+            idlists.push(l2);
+        }
+        idlists.push(vec![b"foo".to_vec(), b"foobar".to_vec(), b"quux".to_vec(), b"bard".to_vec(), b"zap".to_vec(), b"lorem".to_vec()]);
+        par_for(&idlists, |pats| {
+            for mk in [Kind::LF, Kind::LL, Kind::Std] {
+                for kind in [None, Some(AhoCorasickKind::NoncontiguousNFA), Some(AhoCorasickKind::ContiguousNFA), Some(AhoCorasickKind::DFA)] {
+                    let ac = match catch_unwind(AssertUnwindSafe(|| AhoCorasickBuilder::new().match_kind(mk_real(mk)).kind(kind).build(pats))) {
+                        Ok(Ok(ac)) => ac,
+                        _ => continue,
+                    };
+                    let mut hay = vec![b'.'; 24];
+                    for p in pats.iter() {
+                        hay.extend_from_slice(p);
+                        hay.extend_from_slice(b"........................");
+                    }
+                    rep.case(true);
+                    let got: Vec<M> = match catch_unwind(AssertUnwindSafe(|| ac.find_iter(&hay).map(cv).collect())) {
+                        Ok(g) => g,
+                        Err(_) => continue,
+                    };
+                    for m in &got {
+                        if m.pid >= pats.len() || hay[m.start..m.end] != pats[m.pid][..] {
+                            rep.fail(Fail {
+                                key: format!("meta:ids:{}:{}", mk.name(), show_pats(&pats[..pats.len().min(4)])),
+                                what: format!("pattern identifiers in matches are not input positions: {} (kind {}, {:?}) on '{}' reports pattern {} at {}..{}, whose bytes are '{}'", show_pats(pats), mk.name(), kind, show(&hay), m.pid, m.start, m.end, show(&hay[m.start..m.end])),
+                                argv: vec!["meta".into()],
+                            });
+                            break;
+                        }
+                    }
+                }
+            }
+        });
+    }
     rep.sample("e.g. 256 one-byte patterns, DFA explicitly requested, start kind Both, byte classes off".into());
+    rep
+}
+
+// ------------------------------------------------------------------------------------------
+// C04 on large automata: identifiers beyond 2^16 states / 2^24 table offsets
+// ------------------------------------------------------------------------------------------
+pub fn bigkinds(_args: &Args) -> Report {
+    let rep = Report::new(
+        "bigkinds",
+        "two large pattern collections: 100 random 700-byte binary patterns (automatic kind = DFA with ~70000 states x stride 256, premultiplied ids beyond 2^24) and 800 random 100-byte patterns (contiguous NFA beyond 2^24 words); every automaton kind x {leftmost-first, standard}".into(),
+        "case = (collection, match kind, automaton kind, haystack): find_iter equals the noncontiguous NFA's; haystacks = each of 40 patterns embedded in noise, and all of them concatenated".into(),
+    );
+    let mut rng = Rng(0xB16_D0FA);
+    let colls: Vec<Vec<Vec<u8>>> = vec![
+        (0..100).map(|_| (0..700).map(|_| (rng.next() >> 32) as u8).collect()).collect(),
+        (0..800).map(|_| (0..100).map(|_| (rng.next() >> 32) as u8).collect()).collect(),
+    ];
+    for (ci, pats) in colls.iter().enumerate() {
+        let mut hays: Vec<Vec<u8>> = vec![];
+        let mut all = vec![];
+        for p in pats.iter().step_by(pats.len() / 40) {
+            let mut h = vec![0x55u8; 9];
+            h.extend_from_slice(p);
+            h.extend_from_slice(&[0xAA; 9]);
+            all.extend_from_slice(&h);
+            hays.push(h);
+        }
+        hays.push(all);
+        for mk in [Kind::LF, Kind::Std] {
+            let build = |kind: Option<AhoCorasickKind>, bc: bool| catch_unwind(AssertUnwindSafe(|| AhoCorasickBuilder::new().match_kind(mk_real(mk)).kind(kind).byte_classes(bc).prefilter(false).build(pats)));
+            let reference = match build(Some(AhoCorasickKind::NoncontiguousNFA), true) {
+                Ok(Ok(a)) => a,
+                _ => continue,
+            };
+            let base: Vec<Vec<M>> = hays.iter().map(|h| reference.find_iter(h).map(cv).collect()).collect();
+            for (kind, bc) in [(None, true), (Some(AhoCorasickKind::DFA), false), (Some(AhoCorasickKind::ContiguousNFA), false), (Some(AhoCorasickKind::DFA), true)] {
+                if ci == 1 && kind == Some(AhoCorasickKind::DFA) {
+                    continue; // 80000 states x 256 x 4 bytes: the first collection covers the DFA
+                }
+                let a = match build(kind, bc) {
+                    Ok(Ok(a)) => a,
+                    other => {
+                        rep.fail(Fail { key: format!("bigkinds:build:{}:{:?}", ci, kind), what: format!("collection {} kind {:?} byte classes {}: build failed or panicked: {:?}", ci, kind, bc, other.map(|r| r.map(|_| ()).map_err(|e| e.to_string()))), argv: vec!["bigkinds".into()] });
+                        continue;
+                    }
+                };
+                for (i, h) in hays.iter().enumerate() {
+                    rep.case(true);
+                    let got: Vec<M> = match catch_unwind(AssertUnwindSafe(|| a.find_iter(h).map(cv).collect())) {
+                        Ok(g) => g,
+                        Err(_) => vec![M { pid: usize::MAX, start: 0, end: 0 }],
+                    };
+                    if got != base[i] {
+                        rep.fail(Fail { key: format!("bigkinds:{}:{}:{:?}:{}", ci, mk.name(), kind, bc), what: format!("collection {} ({} patterns of {} bytes), kind {:?} (reported {:?}), byte classes {}, match kind {}: haystack #{} gives {:?}, the noncontiguous NFA {:?}", ci, pats.len(), pats[0].len(), kind, a.kind(), bc, mk.name(), i, &got[..got.len().min(4)], &base[i][..base[i].len().min(4)]), argv: vec!["bigkinds".into()] });
+                        break;
+                    }
+                }
+            }
+        }
+    }
     rep
 }
 
@@ -568,6 +679,67 @@ pub fn purity(args: &Args) -> Report {
         "differential: the same searches on one searcher in shuffled orders, on clones, and from 8 threads sharing the searcher and its clones concurrently".into(),
         "case = one search (find / find_iter / overlapping / stream) repeated under a different history or thread; must equal the first sequential result".into(),
     );
+    // vector searchers: many patterns sharing a fingerprint (one crowded verification bucket),
+    // the same two searches alternated on one searcher, its clone and a freshly built one
+    {
+        let mut crowded: Vec<Vec<Vec<u8>>> = vec![];
+        let mut l = vec![b"international".to_vec()];
+        for k in 0..20u8 {
+            l.push(vec![b'i', b'n', b't', b'e', b'A' + k, b'q']);
+        }
+        l.push(b"inter".to_vec());
+        crowded.push(l);
+        crowded.push((0..40u8).map(|k| vec![b'a', b'b', b'a' + (k % 26), b'0' + (k / 26), b'z']).chain(std::iter::once(b"ab".to_vec())).collect());
+        for pats in &crowded {
+            let mut hays: Vec<Vec<u8>> = vec![];
+            for p in pats.iter().rev().take(3).chain(pats.iter().take(3)) {
+                let mut h = vec![b'.'; 40];
+                h.extend_from_slice(p);
+                h.extend_from_slice(b"val......................................");
+                hays.push(h);
+            }
+            for mk in [Kind::LF, Kind::LL] {
+                let build_packed = || {
+                    let mut c = aho_corasick::packed::Config::new();
+                    c.match_kind(if mk == Kind::LF { aho_corasick::packed::MatchKind::LeftmostFirst } else { aho_corasick::packed::MatchKind::LeftmostLongest });
+                    let mut b = c.builder();
+                    b.extend(pats.iter());
+                    b.build()
+                };
+                if let (Some(s1), Some(fresh)) = (build_packed(), build_packed()) {
+                    let s2 = s1.clone();
+                    let base: Vec<Option<M>> = hays.iter().map(|h| fresh.find(h).map(cv)).collect();
+                    for round in 0..3 {
+                        for (i, h) in hays.iter().enumerate() {
+                            let i = if round % 2 == 0 { i } else { hays.len() - 1 - i };
+                            let h = if round % 2 == 0 { h } else { &hays[i] };
+                            for (name, s) in [("searcher", &s1), ("clone", &s2)] {
+                                rep.case(true);
+                                let got = s.find(h).map(cv);
+                                if got != base[i] {
+                                    rep.fail(Fail { key: format!("purity:packed:{}", show_pats(&pats[..3])), what: format!("packed {} ({}): the result of a search depends on earlier searches: '{}' gives {:?}, a fresh searcher {:?}", name, mk.name(), show(h), got, base[i]), argv: vec!["purity".into()] });
+                                }
+                            }
+                        }
+                    }
+                }
+                let cfg = Cfg { engine: Engine::TopAuto, sk: StartKindC::U, mk, ci: false, pre: true, dd: None, bc: true };
+                if let (Ok(Built::Top(a1)), Ok(Built::Top(fresh))) = (build(&cfg, pats), build(&cfg, pats)) {
+                    let base: Vec<Vec<M>> = hays.iter().map(|h| fresh.find_iter(h).map(cv).collect()).collect();
+                    for round in 0..3 {
+                        for k in 0..hays.len() {
+                            let i = if round % 2 == 0 { k } else { hays.len() - 1 - k };
+                            rep.case(true);
+                            let got: Vec<M> = a1.find_iter(&hays[i]).map(cv).collect();
+                            if got != base[i] {
+                                rep.fail(Fail { key: format!("purity:top:{}", show_pats(&pats[..3])), what: format!("AhoCorasick ({}): the result of a search depends on earlier searches: '{}' gives {:?}, a fresh searcher {:?}", mk.name(), show(&hays[i]), got, base[i]), argv: vec!["purity".into()] });
+                            }
+                        }
+                    }
+                }
+            }
+        }
+    }
     let lists = family("abc", false, seed).lists;
     let hays = gen::strings(b"abc", 0, 4);
     let picks: Vec<&Vec<Vec<u8>>> = lists.iter().step_by(if thorough { 7 } else { 41 }).collect();
